@@ -232,11 +232,21 @@ def _plain(v):
     return v
 
 
+_reused_ctx = [None]
+
+
 def evaluate(texts):
     import verif_targets
+    ctx = None
+    if _reused_ctx[0] is not None:
+        # one evaluation context handed to several builds, one after another: this build was preceded by one of the same sources
+        # (same paths, objects of its own) - nothing of it may be seen now
+        from awesomeyaml.eval_context import EvalContext
+        ctx = EvalContext()
+        lib.outcome(lambda: lib.build_via(_reused_ctx[0], _route[0], eval_ctx=ctx))
     verif_targets.reset()
     _per_node.clear()
-    got = lib.outcome(lambda: lib.build_via(texts, _route[0]))
+    got = lib.outcome(lambda: lib.build_via(texts, _route[0], eval_ctx=ctx))
     log = list(verif_targets.LOG)
     twice = [k for k, v in _per_node.items() if k != 'keep' and v > 1]
     _counts['on_evaluate_starts'] += sum(v for k, v in _per_node.items() if k != 'keep')
@@ -317,9 +327,17 @@ def run(case):
         return run_rec(case)
     texts = case['texts']
     _route[0] = case.get('route', 'config')
+    _reused_ctx[0] = texts if util.sig(texts)[0] in '0123' else None
+    try:
+        return _run(case, texts)
+    finally:
+        _reused_ctx[0] = None
+
+
+def _run(case, texts):
     got, log, twice = evaluate(texts)
     vio = []
-    feats = ['producers=%d' % len(case['prods']), 'consumers=%d' % min(len(case['cons']), 8)] + ['consumer_' + c['kind'] for c in case['cons']]
+    feats = ['producers=%d' % len(case['prods']), 'consumers=%d' % min(len(case['cons']), 8)] + ['consumer_' + c['kind'] for c in case['cons']] + (['context_used_for_an_earlier_build'] if _reused_ctx[0] else [])
     if got[0] == 'err':
         vio.append({'mech': 'build-fails', 'what': f'acyclic producer/consumer graph but the build {lib.describe(got)}; texts={texts!r}'})
     else:
